@@ -7,14 +7,15 @@
 (*  are extracted and run by checks/c06.py.                                *)
 (*  The eigen solver is an oracle: theorems 6-10 take its answer under the *)
 (*  contract of DESIGN 1.3 (validated on every observed call by the check).*)
-(*  `_partial`: uniqueness of the eigenvectors up to sign for simple       *)
-(*  eigenvalues (last clause of the property) is cited, not proved.        *)
+(*  Nothing is `_partial` any more: Ky Fan (9), the ordering of the two    *)
+(*  spectra (10c) and sign-uniqueness (10b, 10d) are proved here.          *)
 (* ====================================================================== *)
 Require Import String.
 Require Import Arith Lia List Bool ZArith QArith Qcanon.
 From TK Require Import Mat_Sums Mat_Core Mat_Qc Mat_EigSelect EigSelect Mat_EigSelect_Tie
                        Proj_Model Proj_Spec Proj_Proof
                        Pca_Model Pca_Spec Pca_Proof Pca_Proof_Qc Spectral_KyFan Pca_Proof_Opt Spectral_Randomized Pca_Proof_Select Pca_Proof_Sign Pca_Proof_Recon
+                       Spectral_GramDual Pca_Proof_Spectrum
                        PcaEmbed Pca_Tie.
 Import ListNotations.
 Local Open Scope nat_scope.
@@ -392,9 +393,8 @@ Qed.
 (* 10. PCA vs Kernel PCA (linear kernel) vs MDS (Euclidean distances): PCA's embedding Y
        satisfies, for the centred Gram matrix G = X_c X_c^T, exactly the characterisation
        Properties_C05 proves for the other two (G Y = Y diag(N lam), Y^T Y = diag(N lam)).
-       _partial: that this characterisation determines each column up to sign when the d leading
-       eigenvalues are simple is classical and only TESTED by the check. *)
-Theorem C06_pca_kpca_mds_gram_partial :
+       That this characterisation determines each column up to sign is 10b-10d. *)
+Theorem C06_pca_gram_factor :
   forall (F : Type) (Fo : FieldOps F) (Ff : IsField F) (N D d : nat) (X P : mat F) (lam : vec F),
     of_nat N <> 0%F ->
     eig_contract D d (cov_spec N X) P lam ->
@@ -403,14 +403,12 @@ Theorem C06_pca_kpca_mds_gram_partial :
     (forall a b, a < d -> b < d ->
        sumn N (fun k => (Y k a * Y k b)%F) = if Nat.eqb a b then (of_nat N * lam a)%F else 0%F).
 Proof. exact @pca_gram_factor. Qed.
-Print Assumptions C06_pca_kpca_mds_gram_partial.
+Print Assumptions C06_pca_gram_factor.
 
 (* 10b. ... and that characterisation fixes each column up to sign when its eigenvalue is simple
         and non-zero: column c of PCA's embedding equals +- column c of ANY embedding whose column is
         a Gram-factor column (G z = mu z, <z,z> = mu) for mu = N lam_c — which is what Properties_C05
-        proves of Kernel PCA and MDS.  What stays cited: that the d largest eigenvalues of
-        G = X_c X_c^T are N times the d largest eigenvalues of the covariance (same non-zero spectra
-        WITH the same ordering), so that all three methods select the same mu's. *)
+        proves of Kernel PCA and MDS.  That all three methods select the same mu's is 10c. *)
 Theorem C06_pca_column_unique_up_to_sign :
   forall (F : Type) (Fo : FieldOps F) (Ff : IsField F)
          (eq_dec : forall a b : F, {a = b} + {a <> b})
@@ -460,6 +458,111 @@ Proof.
     + fold b. rewrite E. change (qz (-1)) with (-(1))%Qc. ring.
   - split.
     + intros i Hi. destruct i as [|[|i]]; try lia; apply Qc_is_canon; vm_compute; reflexivity.
+    + apply Qc_is_canon. vm_compute. reflexivity.
+Qed.
+
+(* 10c. the two spectra agree WITH their ordering: the (k+1)-th largest eigenvalue of the centred
+        Gram matrix X_c X_c^T is N times the (k+1)-th largest covariance eigenvalue (Gram duality
+        A A^T / A^T A through Ky Fan in both directions, Spectral_GramDual.v), given full ascending
+        orthonormal decompositions of both (oracle contracts) and non-zero square roots of the
+        eigenvalues involved (they are positive) *)
+Theorem C06_pca_gram_kth_eigenvalue :
+  forall (F : Type) (Fo : FieldOps F) (Ff : IsField F) (Fle : OrderedField F)
+         (N D k : nat) (X V U : mat F) (Lam Mu s r : vec F),
+    of_nat N <> 0%F -> S k <= D -> S k <= N ->
+    full_contract D (cov_spec N X) V Lam -> ascending D Lam ->
+    full_asc N (centred_gram N D X) U Mu ->
+    roots_of_top D (S k) (fun t => (of_nat N * Lam t)%F) s ->
+    roots_of_top N (S k) Mu r ->
+    Mu (N - S k) = fmul (of_nat N) (Lam (D - S k)).
+Proof. exact @pca_gram_kth_eigenvalue. Qed.
+Print Assumptions C06_pca_gram_kth_eigenvalue.
+
+(* 10d. LAST CLAUSE OF THE PROPERTY: PCA's embedding agrees, column by column and up to sign, with
+        any embedding Z that is a factor of the centred Gram matrix for its d largest eigenvalues
+        (Z^T Z = diag mu, G Z = Z diag mu: exactly what Properties_C05.Mds_sqrt_scaling /
+        Mds_factor_partial prove of Kernel PCA with the linear kernel and of MDS with Euclidean
+        distances, whose matrices are that Gram matrix by Mds_kpca_linear_gram / Mds_identity),
+        wherever those eigenvalues are simple *)
+Theorem C06_pca_agrees_with_kpca_mds :
+  forall (F : Type) (Fo : FieldOps F) (Ff : IsField F) (Fle : OrderedField F)
+         (eq_dec : forall a b : F, {a = b} + {a <> b})
+         (N D d : nat) (X V U Z : mat F) (Lam Mu s r : vec F) (u : nat -> vec F),
+    of_nat N <> 0%F -> d <= D -> d <= N ->
+    full_contract D (cov_spec N X) V Lam -> ascending D Lam ->
+    full_asc N (centred_gram N D X) U Mu ->
+    roots_of_top D d (fun t => (of_nat N * Lam t)%F) s ->
+    roots_of_top N d Mu r ->
+    (forall c, c < d -> simple_eigenvalue N (centred_gram N D X) (Mu (N - d + c)) (u c)) ->
+    meq d d (mmul N (mtrans Z) Z) (mdiag (fun c => Mu (N - d + c))) ->
+    meq N d (mmul N (centred_gram N D X) Z) (mmul d Z (mdiag (fun c => Mu (N - d + c)))) ->
+    let Y := pca_embedding N D X (select_cols V (D - d, d)) in
+    forall c, c < d ->
+      veq N (fun k => Z k c) (fun k => Y k c) \/
+      veq N (fun k => Z k c) (vscale (- (1))%F (fun k => Y k c)).
+Proof. exact @pca_agrees_with_kpca_mds. Qed.
+Print Assumptions C06_pca_agrees_with_kpca_mds.
+
+(* four samples +1, -1, +1, -1 on a line: covariance [[1]], centred Gram h h^T with
+   h = (1,-1,1,-1), eigenvalue 4 = N * 1, rational (Hadamard) eigenbasis *)
+Definition ex6g_X : mat Qc := mof [[qz 1]; [qz (-1)]; [qz 1]; [qz (-1)]].
+Definition ex6g_V : mat Qc := mof [[qz 1]].
+Definition ex6g_Lam : vec Qc := vof [qz 1].
+Definition hq : Qc := qfrac 1 2.
+Definition ex6g_U : mat Qc :=
+  mof [[hq; hq; hq; hq]; [hq; hq; (-hq)%Qc; (-hq)%Qc]; [hq; (-hq)%Qc; (-hq)%Qc; hq]; [hq; (-hq)%Qc; hq; (-hq)%Qc]].
+Definition ex6g_Mu : vec Qc := vof [qz 0; qz 0; qz 0; qz 4].
+Definition ex6g_s : vec Qc := vof [qz 2].
+Definition ex6g_h : vec Qc := vof [qz 1; qz (-1); qz 1; qz (-1)].
+Definition ex6g_Z : mat Qc := mof [[qz 1]; [qz (-1)]; [qz 1]; [qz (-1)]].
+
+Example C06_gram_spectrum_nonvacuous :
+  @of_nat Qc _ 4 <> 0%F /\ 1 <= 1 /\ 1 <= 4 /\
+  full_contract 1 (cov_spec 4 ex6g_X) ex6g_V ex6g_Lam /\ ascending 1 ex6g_Lam /\
+  full_asc 4 (centred_gram 4 1 ex6g_X) (mtrans ex6g_U) ex6g_Mu /\
+  roots_of_top 1 1 (fun t => (of_nat 4 * ex6g_Lam t)%F) ex6g_s /\
+  roots_of_top 4 1 ex6g_Mu ex6g_s /\
+  (forall c, c < 1 ->
+     simple_eigenvalue 4 (centred_gram 4 1 ex6g_X) (ex6g_Mu (4 - 1 + c)) ex6g_h /\
+     gram_factor_col 4 (centred_gram 4 1 ex6g_X) (ex6g_Mu (4 - 1 + c)) (fun k => ex6g_Z k c)).
+Proof.
+  split; [apply Qc_of_nat_neq0; lia|]. split; [lia|]. split; [lia|].
+  split; [repeat split; apply meq_by_compute; vm_compute; reflexivity|].
+  split.
+  { intros a b Hab Hb. assert (a = 0) by lia. assert (b = 0) by lia. subst. apply fle_refl. }
+  split.
+  { split; [apply meq_by_compute; vm_compute; reflexivity|].
+    split; [apply meq_by_compute; vm_compute; reflexivity|].
+    split; [apply meq_by_compute; vm_compute; reflexivity|].
+    intros a b Hab Hb.
+    destruct a as [|[|[|[|a]]]]; destruct b as [|[|[|[|b]]]]; try lia;
+      unfold fle; cbn [QcOrdered]; unfold Qcle; vm_compute; discriminate. }
+  split.
+  { intros c Hc. assert (c = 0) by lia. subst c. split.
+    - apply Qc_is_canon. vm_compute. reflexivity.
+    - intros H. apply (f_equal this) in H. vm_compute in H. discriminate. }
+  split.
+  { intros c Hc. assert (c = 0) by lia. subst c. split.
+    - apply Qc_is_canon. vm_compute. reflexivity.
+    - intros H. apply (f_equal this) in H. vm_compute in H. discriminate. }
+  intros c Hc. assert (c = 0) by lia. subst c.
+  assert (HG : meq 4 4 (centred_gram 4 1 ex6g_X) (fun i j => (ex6g_h i * ex6g_h j)%F))
+    by (apply meq_by_compute; vm_compute; reflexivity).
+  assert (MU : ex6g_Mu (4 - 1 + 0) = qz 4) by reflexivity.
+  rewrite MU. split.
+  - intros v Hv.
+    exists ((sumn 4 (fun j => (ex6g_h j * v j)%F)) / qz 4)%Qc.
+    intros i Hi. specialize (Hv i Hi). unfold mv in Hv.
+    rewrite (sumn_ext 4 _ (fun t => (ex6g_h i * (ex6g_h t * v t))%F)) in Hv.
+    2:{ intros t Ht. rewrite (HG i t Hi Ht). cbn [fmul QcOps]. ring. }
+    rewrite sumn_mul_l in Hv. unfold vscale. cbn [fmul QcOps] in *.
+    set (S := sumn 4 (fun j => (ex6g_h j * v j)%Qc)) in *.
+    (* 4 v_i = h_i S *)
+    transitivity ((qz 4 * v i) / qz 4)%Qc.
+    + field. intros H. apply (f_equal this) in H. vm_compute in H. discriminate.
+    + rewrite <- Hv. field. intros H. apply (f_equal this) in H. vm_compute in H. discriminate.
+  - split.
+    + intros i Hi. destruct i as [|[|[|[|i]]]]; try lia; apply Qc_is_canon; vm_compute; reflexivity.
     + apply Qc_is_canon. vm_compute. reflexivity.
 Qed.
 
